@@ -5,7 +5,7 @@
 (* (desc) and the signaling-state events dispatched during the call.        *)
 EXTENDS JsepOps, TraceKit
 
-VARIABLES l, viol, cnt, stableCur
+VARIABLES pos, viol, cnt, stableCur
 
 Slots(p) == [pendL |-> p.pendL, pendR |-> p.pendR, curL |-> p.curL, curR |-> p.curR]
 SetCall(e) == e.op \in {"SetLocal", "SetRemote"}
@@ -42,20 +42,20 @@ Preds(e) ==
    P("C03", "NoEventOnError", set /\ ~Ok(e), Len(e.events) = 0)
   }
 
-Init == l = 1 /\ viol = {} /\ cnt = EmptyCount /\ stableCur = <<None, None>>
+Init == pos = 1 /\ viol = {} /\ cnt = EmptyCount /\ stableCur = <<None, None>>
 
 Step ==
-  /\ l <= Len(Trace)
-  /\ LET e == Trace[l] IN
+  /\ pos <= Len(Trace)
+  /\ LET e == Trace[pos] IN
        IF e.ev = "reset"
        THEN /\ stableCur' = <<None, None>> /\ UNCHANGED <<viol, cnt>>
        ELSE LET ps == Preds(e) IN
-            /\ viol' = Merge(viol, Failures(ps, e, l))
+            /\ viol' = Merge(viol, Failures(ps, e, pos))
             /\ cnt'  = Count(cnt, ps)
             /\ stableCur' = IF e.a.sig = "stable" THEN <<e.a.curL, e.a.curR>> ELSE stableCur
-  /\ l' = l + 1
+  /\ pos' = pos + 1
 
-Done == l = Len(Trace) + 1 /\ UNCHANGED <<l, viol, cnt, stableCur>>
+Done == pos = Len(Trace) + 1 /\ UNCHANGED <<pos, viol, cnt, stableCur>>
 Next == Step \/ Done
-Rep  == Report(l, viol, cnt)
+Rep  == Report(pos, viol, cnt)
 =============================================================================
